@@ -178,6 +178,13 @@ func checkC11(c *Ctx) Meta {
 	c.Rule("C11-REACH", "MassDB.Delete is reachable from the keeper API only through DeleteWS; RemoveWS reaches no destructive operation", 3)
 	c.Rule("C11-GATE", "remove/delete effects lie behind the Registered-or-Ready membership test; MassDBV1.Delete closes and removes only when not plotting", 5)
 	c.Rule("C11-LOAD", "in generateInitialIndex, indexing is dominated by: name pattern match, argument parse, wallet ownership and ordinal equality, duplicate miss, successful NewWorkSpace", 6)
+	c.Rule("C11-COMPLETE", "the only deletion of plot data outside the delete path is the removal of map A at completion, and it happens only when both plotting passes returned nil (a stop request or an error keeps map A)", 2)
+	checkRemoveAfterPasses(c, "C11-COMPLETE")
+	c.Rule("C11-INDEX", "the state gate of remove/delete reads indexes that agree with the space's state: every transition of the keeper deletes the space from the index of the state it leaves, sets it in the index of the state it enters and stores that state (the C09 transition extraction, here as the premise of the gate)", 14)
+	c09TransRule = "C11-INDEX"
+	checkTransitions(c, pkgCapacity, "capacity")
+	checkTransitions(c, pkgSkchia, "skchia")
+	c09TransRule = "C09-TRANS"
 	c.Rule("C11-HEADER", "on the open path a comparison guarding success relates data read from the file header (HashMap.pk/pkHash/bl) to the requested key and bit length (non-vacuous header-vs-name check); loadHashMap validates file code, version, key hash and map type", 7)
 
 	// ---- WMC
@@ -642,6 +649,64 @@ func checkHeaderVsName(c *Ctx) {
 	}
 	guard("open-path:header-key-vs-name", "public key", keyCmps)
 	guard("open-path:header-bitlength-vs-name", "bit length", blCmps)
+
+	// each file opened is checked against the name with its *own* header: for every LoadHashMap in
+	// OpenDB a key comparison and a bit-length comparison whose header operand comes from that very
+	// map guard every success return reachable after the load
+	loads := callsIn(open, pkgMassDBV1+".LoadHashMap")
+	for i, ld := range loads {
+		obj := resultOf(ld, 0)
+		for _, kind := range []string{"key", "bl"} {
+			key := fmt.Sprintf("open-path:map#%d-own-header-%s-vs-name", i+1, kind)
+			var own []boolTest
+			for _, cs := range append(append([]cmpSite{}, keyCmps...), blCmps...) {
+				if cs.fn != open || cs.what != kind {
+					continue
+				}
+				for _, t := range cs.tests {
+					// the header operand of this comparison belongs to the map loaded by ld
+					var operands []ssa.Value
+					switch x := t.If.Cond.(type) {
+					case *ssa.BinOp:
+						operands = []ssa.Value{x.X, x.Y}
+					case *ssa.Call:
+						operands = x.Call.Args
+					case *ssa.UnOp: // !IsEqual(...)
+						if cl, ok := x.X.(*ssa.Call); ok {
+							operands = cl.Call.Args
+						}
+						if bo, ok := x.X.(*ssa.BinOp); ok {
+							operands = []ssa.Value{bo.X, bo.Y}
+						}
+					}
+					for _, o := range operands {
+						if directHeader(open, o) && backSlice(o).has(obj) {
+							own = append(own, t)
+						}
+					}
+				}
+			}
+			if len(own) == 0 {
+				c.Bad(rule, key, c.Pos(ld.Pos()), "the file loaded here is never compared with the name through its own header ("+kind+"): a renamed or copied-over file with another key's header is opened and indexed")
+				continue
+			}
+			r := reach(open, ld, boolEdgeCut(own, true), nil)
+			guards := true
+			for _, ret := range returnsOf(open) {
+				if isNilErrorReturn(ret) && r(ret) {
+					guards = false
+				}
+			}
+			if guards {
+				c.OK(rule, key, c.Pos(own[0].If.Pos()), "after this load OpenDB succeeds only if the map's own header "+kind+" equals the requested one")
+			} else {
+				c.Bad(rule, key, c.Pos(ld.Pos()), "OpenDB can succeed after this load without the map's own header "+kind+" having matched the name")
+			}
+		}
+	}
+	if len(loads) != 2 {
+		c.Bad(rule, "open-path:loads", c.Pos(open.Pos()), fmt.Sprintf("reason=anchor-missing: expected the loads of map B and map A in OpenDB, found %d", len(loads)))
+	}
 }
 
 func checkLoadHashMap(c *Ctx) {
